@@ -137,6 +137,7 @@ pub fn run(name: &str, a: &[u64]) -> Vec<u64> {
         "sbd_hist" => crate::codec::sbd_hist(a),
         "intermediate" => crate::codec::intermediate(a),
         "plan_ops" => crate::codec::plan_ops(a),
+        "variant_packets" => crate::codec::variant_packets(a),
         "solve_ops" => crate::codec::solve_ops(a),
         "bm_dense" => crate::bitmat::dense(a),
         "bm_sparse" => crate::bitmat::sparse(a),
